@@ -22,8 +22,8 @@ from pathlib import Path
 
 
 class Solid:
-    def __init__(self, rgb, alpha=1.0):
-        self.rgb, self.alpha = rgb, alpha
+    def __init__(self, rgb, alpha=1.0, index=None):
+        self.rgb, self.alpha, self.index = rgb, alpha, index
 
 
 class Linear:
@@ -130,6 +130,8 @@ def gen_glyphset(rng, n_glyphs=None, gradients=True, groups=True, reuse=True):
     vb = rng.choice(_VIEWBOXES)
     glyphs = []
     pool = []
+    fills = {}
+    id_of = lambda pts_: tuple(map(tuple, pts_))
     for gi in range(n):
         if rng.random() < 0.25:
             vb = rng.choice(_VIEWBOXES)
@@ -138,10 +140,12 @@ def gen_glyphset(rng, n_glyphs=None, gradients=True, groups=True, reuse=True):
             if reuse and pool and rng.random() < 0.45:
                 # a congruent / similar copy of an earlier shape (translation, flip, scale)
                 src = rng.choice(pool)
-                kind = rng.choice(["t", "t", "flip", "scale", "vflip", "rot", "scalexy"])
+                kind = rng.choice(["t", "t", "flip", "scale", "vflip", "rot", "scalexy", "same"])
                 cx = sum(p[0] for p in src) / len(src)
                 cy = sum(p[1] for p in src) / len(src)
-                if kind == "t":
+                if kind == "same":
+                    m = (1, 0, 0, 1, 0, 0)
+                elif kind == "t":
                     m = (1, 0, 0, 1, rng.randint(-8, 8), rng.randint(-8, 8))
                 elif kind == "flip":
                     m = (-1, 0, 0, 1, 2 * cx, 0)
@@ -163,8 +167,13 @@ def gen_glyphset(rng, n_glyphs=None, gradients=True, groups=True, reuse=True):
                     pts = _poly(rng, vb)
             else:
                 pts = _poly(rng, vb)
+            same_fill = None
+            if reuse and pool and pts in pool and fills.get(id_of(pts)) is not None and rng.random() < 0.7:
+                same_fill = fills[id_of(pts)]  # an identical shape with the identical paint
             pool.append(pts)
-            items.append(Shape(pts, _fill(rng, pts, gradients), rng.choice([1.0, 1.0, 0.5, 0.25])))
+            fill = same_fill or _fill(rng, pts, gradients)
+            fills[id_of(pts)] = fill
+            items.append(Shape(pts, fill, rng.choice([1.0, 1.0, 0.5, 0.25])))
         if groups and len(items) >= 2 and rng.random() < 0.3:
             items = [Group(0.5, items[:2])] + items[2:]
         glyphs.append(GlyphSpec(vb, items, (0xE000 + gi,)))
@@ -191,7 +200,10 @@ def svg_text(g):
         attrs = f'd="{d}"'
         f = s.fill
         if isinstance(f, Solid):
-            attrs += f' fill="{_hex(f.rgb)}' + ("" if f.alpha == 1.0 else "%02X" % round(f.alpha * 255)) + '"'
+            col = _hex(f.rgb) + ("" if f.alpha == 1.0 else "%02X" % round(f.alpha * 255))
+            if getattr(f, "index", None) is not None:
+                col = f"var(--color{f.index}, {col})"
+            attrs += f' fill="{col}"'
         else:
             gid[0] += 1
             ident = f"grad{gid[0]}"
